@@ -21,6 +21,8 @@ SAFETY_PAT = re.compile(r'pointer_dereference|array_bounds|overflow|pointer_arit
 
 def load_units():
     units = []
+    if os.path.join(VERIF, 'units') not in sys.path:
+        sys.path.insert(0, os.path.join(VERIF, 'units'))
     for p in sorted(glob.glob(os.path.join(VERIF, 'units', '*.py'))):
         if os.path.basename(p).startswith('_'):
             continue
@@ -71,6 +73,23 @@ def native_replay(unit, replay_path):
         return {'reproduced': None, 'detail': 'replay driver missing: ' + src}
     bdir = os.path.join(D.BUILD, 'replay')
     os.makedirs(bdir, exist_ok=True)
+    try:
+        with open(replay_path) as fh:
+            doc = json.load(fh)
+        wit = doc.get('witness') or {}
+        with open(replay_path + '.in', 'w') as fh:
+            for k, v in sorted(wit.items()):
+                if isinstance(v, list):
+                    vals = [x for x in v]
+                else:
+                    vals = [v]
+                vals = [(1 if x is True else 0 if x is False or x is None else x) for x in vals]
+                if all(isinstance(x, (int, float)) for x in vals):
+                    fh.write('%s %d %s\n' % (k, len(vals), ' '.join(repr(float(x)) if isinstance(x, float) else str(x) for x in vals)))
+            for k, v in sorted((doc.get('variant') or {}).items()):
+                fh.write('D_%s 1 %s\n' % (k, v))
+    except Exception as e:
+        return {'reproduced': None, 'detail': 'cannot write witness input: %r' % (e,)}
     exe = os.path.join(bdir, unit.replay)
     cmd = ['g++', '-std=c++11', '-O1', '-g', '-fopenmp', '-DAMGCL_VERIF', '-I', X.REPO,
            '-I', os.path.join(VERIF, 'replay'), src, '-o', exe]
